@@ -33,6 +33,7 @@ class Note:
     sigs: Tuple[str, ...] = ()    # distinct signifier characters
     rest: bool = False
     fixed_pre: str = ''           # signifiers rendered at a fixed place before the pitch (grace 'q' without duration)
+    implicit_dur: bool = False    # chord member written without its duration: it has the duration of the member before it
 
     # ---- abstract views ------------------------------------------------------------------------------
     def dur_parts(self) -> List[str]:
@@ -64,7 +65,7 @@ class Note:
 
     def plain(self) -> str:
         """Rendering in the standard order: signifiers after the pitch, sorted, once each."""
-        return self.fixed_pre + ''.join(self.dur_parts()) + ''.join(self.pitch_parts()) + ''.join(sorted(self.sigs))
+        return self.fixed_pre + ('' if self.implicit_dur else ''.join(self.dur_parts())) + ''.join(self.pitch_parts()) + ''.join(sorted(self.sigs))
 
     def alteration(self) -> int:
         a = self.acc.rstrip('xXiIjZyY')
@@ -82,7 +83,7 @@ class Note:
     # ---- renderings ----------------------------------------------------------------------------------
     def render(self, rng, hostile=0.5) -> str:
         """A random equivalent spelling of the same abstract note."""
-        dur_txt = ''.join(self.dur_parts())
+        dur_txt = '' if self.implicit_dur else ''.join(self.dur_parts())
         if self.rest:
             pre, post = [], []
             for s in self.sigs:
@@ -263,6 +264,12 @@ def rand_chord(rng, *, hostile=0.5, allow_acc=True, allow_sigs=True, allow_grace
     if all(x.rest for x in notes):
         notes[0] = rand_note(rng, hostile=hostile, allow_grace=False, allow_acc=False, allow_sigs=False,
                              allow_nodur=False, chord_has_acc=has_acc)
+    # a member written without a duration takes the duration of the member before it ('4c e g', '8r e'): the abstract member has
+    # that duration, only the text leaves it out
+    for i in range(1, len(notes)):
+        if notes[i - 1].dur is not None and not notes[i - 1].grace and rng.random() < 0.08:
+            notes[i].dur, notes[i].dots, notes[i].grace = notes[i - 1].dur, notes[i - 1].dots, ''
+            notes[i].implicit_dur = True
     ch = Chord(notes)
     if mix:
         plain = [x for x in notes if not x.rest and not x.acc]
